@@ -126,6 +126,7 @@ def main(argv=None):
     violations, samples, nontrivial = [], [], set()
     viol_count = cases_run = 0
     viol_sigs = {}
+    libs = set()
     for o in outs:
         r = o["res"]
         if r is None:
@@ -135,6 +136,7 @@ def main(argv=None):
             inconclusive.append("shard %s/%s hit the wall-clock watchdog" % (o["mode"], o["shard"]))
         if r["n_errors"]:
             inconclusive.append("harness errors in shard %s/%s: %s" % (o["mode"], o["shard"], r["errors"][0]["exc"] + " :: " + r["errors"][0]["tb"][-400:].replace("\n", " | ")))
+        libs.add(os.path.dirname(r.get("uxarray_file") or "?"))
         cases_run += r["cases_run"]
         viol_count += r["viol_count"]
         for k, v in r["clause_evals"].items():
@@ -201,8 +203,8 @@ def main(argv=None):
         verdict, rc = "held", 0
 
     wall = time.time() - t0
-    summary = "%s %s tier=%s seed=%d cases=%d evaluations=%d distinct_nontrivial=%d violations=%d (fresh signatures=%d, known=%d) wall=%.1fs" % (
-        prop, verdict.upper(), tier, a.seed, cases_run, evaluations, len(nontrivial), viol_count, len(seen), len(matched), wall)
+    summary = "%s %s tier=%s seed=%d cases=%d evaluations=%d distinct_nontrivial=%d violations=%d (fresh signatures=%d, known=%d) wall=%.1fs lib=%s" % (
+        prop, verdict.upper(), tier, a.seed, cases_run, evaluations, len(nontrivial), viol_count, len(seen), len(matched), wall, ",".join(sorted(libs)))
     for l in lines:
         print(l)
     print(summary)
@@ -225,6 +227,7 @@ def main(argv=None):
                 "notes": {k: sorted(v)[:300] for k, v in notes.items()},
                 "note_sizes": {k: len(v) for k, v in notes.items()},
                 "modes": [m["name"] for m in modes],
+                "library_under_test": sorted(libs),
                 "shards": nshards,
                 "verdict": verdict,
                 "violation_signatures": {k: viol_sigs[k] for k in sorted(viol_sigs)[:200]},
